@@ -9,6 +9,7 @@ result is the patcher's result.
 import XmlDiffModel.Proofs.Acc2
 import XmlDiffModel.Proofs.AttrCount
 import XmlDiffModel.Proofs.Strict
+import XmlDiffModel.Model.Project
 
 namespace XmlDiffModel
 namespace Acc
@@ -16,11 +17,6 @@ open Tree
 
 /-! ### cleaning attributes -/
 
-def diffPrefix : Str := ['{'] ++ diffNsStr ++ ['}']
-
-def isDiffKey (k : Str) : Bool := diffPrefix.isPrefixOf k
-
-def stripDiff (as : Attrs) : Attrs := as.filter (fun kv => !isDiffKey kv.1)
 
 theorem isDiffKey_dname (n : String) : isDiffKey (dname n) = true := by
   unfold isDiffKey dname diffPrefix
